@@ -375,6 +375,47 @@ Outcome outcome_from_text(const std::string& text) {
     return o;
 }
 
+// "apbp.cpp:44+apbp.cpp:20": first teakra frame of the two conflicting accesses of the first report
+static std::string tsan_signature(const std::string& text) {
+    std::vector<std::string> locs;
+    std::size_t pos = text.find("WARNING: ThreadSanitizer");
+    std::size_t end = text.find("SUMMARY: ThreadSanitizer", pos);
+    std::string rep = text.substr(pos, end == std::string::npos ? std::string::npos : end - pos);
+    std::istringstream in(rep);
+    std::string line;
+    bool in_access = false, taken = false;
+    while (std::getline(in, line)) {
+        if (line.find(" of size ") != std::string::npos && (line.find("rite") != std::string::npos || line.find("ead") != std::string::npos)) {
+            in_access = true;
+            taken = false;
+            continue;
+        }
+        if (line.empty()) {
+            in_access = false;
+            continue;
+        }
+        if (in_access && !taken && line.find("#") != std::string::npos) {
+            std::size_t s1 = line.find("/src/");
+            if (s1 == std::string::npos)
+                s1 = line.find("/include/teakra/");
+            if (s1 == std::string::npos)
+                continue;
+            std::size_t slash = line.rfind('/', line.find(':', s1));
+            std::string fl = line.substr(slash + 1);
+            std::size_t c1 = fl.find(':');
+            std::size_t c2 = c1 == std::string::npos ? c1 : fl.find_first_not_of("0123456789", c1 + 1);
+            locs.push_back(fl.substr(0, c2));
+            taken = true;
+        }
+    }
+    if (locs.size() >= 2 && locs[1] < locs[0])
+        std::swap(locs[0], locs[1]);
+    std::string r;
+    for (std::size_t i = 0; i < locs.size() && i < 2; ++i)
+        r += (i ? "+" : "") + locs[i];
+    return r.empty() ? "unknown" : r;
+}
+
 // ---------------------------------------------------------------- executing a plan with the always-on invariants
 static Outcome run_plan_here(Scenario* sc, const Plan& plan) {
     capture_reset();
@@ -403,14 +444,15 @@ static Outcome run_plan_here(Scenario* sc, const Plan& plan) {
                 out.cls = "C18.ubsan:" + site;
                 out.detail = cap.substr(0, std::min<std::size_t>(cap.size(), 300));
             }
-        } else if (cap.find("ThreadSanitizer") != std::string::npos && out.cls.empty()) {
-            out.violate("C19.data-race", cap.substr(0, 600));
+        } else if (cap.find("WARNING: ThreadSanitizer") != std::string::npos && out.cls.empty()) {
+            out.violate("C19.data-race:" + tsan_signature(cap), cap.substr(0, 900));
         }
     }
     return out;
 }
 
 static bool g_isolate = false; // execute every plan in a forked child (scenario uses the box pool)
+static int g_child_fd = -1;
 static std::string g_last_crash_text;
 
 static std::string read_all_fd(int fd) {
@@ -430,6 +472,21 @@ static std::string read_all_fd(int fd) {
     return r;
 }
 
+static void child_write(const std::string& r) {
+    const char* p = r.data();
+    std::size_t n = r.size();
+    while (n && g_child_fd >= 0) {
+        ssize_t w = ::write(g_child_fd, p, n);
+        if (w < 0) {
+            if (errno == EINTR)
+                continue;
+            break;
+        }
+        p += w;
+        n -= (std::size_t)w;
+    }
+}
+
 // Runs `body` in a forked child; the child's return string travels back over a pipe.
 // Returns false if the child died (sanitizer abort, signal, timeout); status then holds waitpid status.
 static bool in_child(const std::function<std::string()>& body, std::string& result, int& status) {
@@ -443,6 +500,7 @@ static bool in_child(const std::function<std::string()>& body, std::string& resu
         _exit(4);
     if (pid == 0) {
         ::close(fds[0]);
+        g_child_fd = fds[1];
         ::alarm(300);
         std::string r = body();
         const char* p = r.data();
@@ -471,6 +529,32 @@ static bool in_child(const std::function<std::string()>& body, std::string& resu
     return WIFEXITED(status) && WEXITSTATUS(status) == 0;
 }
 
+} // namespace sim
+namespace sim {
+// Ends the current (forked) execution at once with the given outcome: used when the run cannot return
+// normally (e.g. the simulated threads are deadlocked).
+void emergency_finish(const Outcome& o) {
+    std::string cap = capture_read();
+    (void)cap;
+    std::string r = outcome_to_text(o);
+    if (g_child_fd >= 0) {
+        const char* p = r.data();
+        std::size_t n = r.size();
+        while (n) {
+            ssize_t w = ::write(g_child_fd, p, n);
+            if (w <= 0)
+                break;
+            p += w;
+            n -= (std::size_t)w;
+        }
+        std::fflush(nullptr);
+        _exit(0);
+    }
+    std::fprintf(stderr, "emergency_finish outside a child: %s\n", o.cls.c_str());
+    _exit(87);
+}
+} // namespace sim
+namespace sim {
 static Outcome crash_outcome(int status) {
     Outcome o;
     int code = WIFSIGNALED(status) ? -WTERMSIG(status) : WEXITSTATUS(status);
@@ -513,12 +597,19 @@ static Outcome generate_and_run(Scenario* sc, u64 run_seed, const Tier& tier, co
             p.prop = prop;
             p.seed = run_seed;
             std::string pt = p.to_text();
-            // send the plan first so that it survives a crash of the execution
-            std::string head = "PLANBYTES " + std::to_string(pt.size()) + "\n" + pt;
-            return head + outcome_to_text(run_plan_here(sc, p));
+            // send the plan first so that it survives a crash or an emergency end of the execution
+            child_write("PLANBYTES " + std::to_string(pt.size()) + "\n" + pt);
+            return outcome_to_text(run_plan_here(sc, p));
         },
         text, status);
-    // the child writes everything at the end, so on a crash there is no plan: regenerate it alone
+    if (text.rfind("PLANBYTES ", 0) == 0 && !ok) {
+        // the plan arrived, the execution died
+        std::size_t nl = text.find('\n');
+        std::size_t n = std::strtoull(text.c_str() + 10, nullptr, 10);
+        plan_out = Plan::from_text(text.substr(nl + 1, n));
+        have_plan = true;
+        return crash_outcome(status);
+    }
     if (!ok || text.rfind("PLANBYTES ", 0) != 0) {
         std::string ptext;
         int st2 = 0;
